@@ -225,9 +225,58 @@ def r5_5(ctx, rc):
 
 def r5_6(ctx, rc):
     apply_rules(ctx, rc)
-    guards(ctx).check(rc, columns={'RAISED_OR_OUTPUT_INTACT',
-                                   'OUTPUT_INTACT', 'PARENTS_MAKEABLE'},
-                      rule_prefix='hit')
+    G = guards(ctx)
+    G.check(rc, columns={'RAISED_OR_OUTPUT_INTACT', 'OUTPUT_INTACT',
+                         'PARENTS_MAKEABLE', 'OVERLAY_STARTED',
+                         'OVERLAY_CLOSED'}, rule_prefix='hit')
+    # replay mirrors execution for a nested output: started before its
+    # suboperations are replayed; closed as failed iff the record raised
+    for d, kind in G.nested.items():
+        if kind != 'nested_file':
+            continue
+        sg = G.graph(d)
+        rr = G.replay.qualname
+        w = Q.first_unguarded(
+            sg, [sg.entry],
+            lambda x: Q.is_done(x, 'CreatedFiles.started_building_file'),
+            lambda x: Q.is_call(x, rr))
+        key = '%s: overlay started before the suboperations are replayed' \
+            % d.qualname
+        if w:
+            rc.violation('overlay-order | ' + d.qualname,
+                         'the recorded suboperations of a nested output are '
+                         'replayed before its directories are regarded as '
+                         'created in the overlay', d.file,
+                         sg.describe_path(w), key=key)
+        else:
+            rc.ok({'order': key}, key=key)
+
+        def raised_edge(lab, pol):
+            if not (isinstance(lab, tuple) and len(lab) == 4 and
+                    lab[0] == pol):
+                return False
+            a = ctx.H.subst(lab[1], lab[2], lab[3])
+            return isinstance(a, ast.Attribute) and a.attr == 'raised'
+        for callee, pol, what in (
+                ('CreatedFiles.error_building_file', 'T', 'raised'),
+                ('CreatedFiles.finished_building_file', 'F', 'succeeded')):
+            tgt = [x for x in sg.nodes if Q.is_call(x, callee)]
+            seen = sg.reach([sg.entry], edge_ok=lambda a, b, lab, pol=pol:
+                            not raised_edge(lab, pol))
+            key = '%s: %s only for records that %s' % (
+                d.qualname, callee, what)
+            if not tgt:
+                rc.violation('overlay-close-missing | ' + callee,
+                             '%s never calls %s' % (d.qualname, callee),
+                             d.file, key=key)
+            elif any(t.id in seen for t in tgt):
+                rc.violation('overlay-close-polarity | ' + callee,
+                             '%s can call %s for a record that has not %s: '
+                             'the replay sees a different tree than the '
+                             'execution did' % (d.qualname, callee, what),
+                             tgt[0].where(), key=key)
+            else:
+                rc.ok({'close': key}, key=key)
 
 
 RULES = [
